@@ -5,6 +5,7 @@ use crate::util::*;
 
 pub fn run(o: &Opts) -> Report {
     let mut rep = Report::new("C01", "random valid command trees (all modelled settings: relations, groups, defaults/env, hyphen values, terminators, last, trailing_var_arg, require_equals, flag subcommands, inference, external subcommands, ignore_errors) x argv from a token grammar (flags, clusters, =-forms, --, -, numbers, subcommand names, unknown flags, non-UTF-8); real parse under catch_unwind, every error rendered; non-trivial = successful parse of >= 2 tokens; distinct by canonical request");
+    rep.check_wf = true;
     let cfg = GenCfg { relations: true, defaults: true, subs: true, exotic: true, groups: true, flagsubs: true, settings: true, globals: true };
     let (n_cmds, n_argv) = if o.thorough() { (15000, 30) } else { (2500, 20) };
     pcorr::run(&mut rep, o, cfg, n_cmds, n_argv, 7, 0xC01, |_, _| vec![], |case, rep| {
